@@ -292,3 +292,18 @@ Section Compound.
     intros E. injection E as <-. split; [lia|reflexivity].
   Qed.
 End Compound.
+
+(* exact core of the compound-accrual subadditivity: (a-1) + (b-1) <= ab - 1 for a, b >= 1, and
+   pow x y1 * pow x y2 <= (1 + en/2^53) * pow x y12  (H4, tested)  give
+   (f1 - 1) + (f2 - 1) <= (f12 - 1) + en/2^53 * f12   on the float values, before the two float
+   roundings (f - 1, * amount) and the 18-decimal formatting *)
+Lemma cmp_core_subadd en f1 f2 f12 : F_ONE <= f1 -> F_ONE <= f2 ->
+  h4_ok en f1 f2 f12 = true ->
+  ((f1 - F_ONE) + (f2 - F_ONE)) * F_P53 <= (f12 - F_ONE) * F_P53 + en * f12.
+Proof.
+  intros A B H. unfold h4_ok in H. pose proof F_ONE_pos. pose proof F_P53_pos.
+  assert (E : f1 * f2 * F_P53 <= (F_P53 + en) * f12 * F_ONE) by lia.
+  assert (((f1 - F_ONE) + (f2 - F_ONE)) * F_ONE <= f1 * f2 - F_ONE * F_ONE) by nia.
+  assert (((f1 - F_ONE) + (f2 - F_ONE)) * F_ONE * F_P53 <= ((F_P53 + en) * f12 - F_ONE * F_P53) * F_ONE) by nia.
+  nia.
+Qed.
